@@ -122,6 +122,20 @@ Theorem C07_rows_multi :
 Proof. exact append_rows_multi. Qed.
 Print Assumptions C07_rows_multi.
 
+(* ... and so for ANY sequence of multi-file appends (induction over the list of appends): *)
+Theorem C07_rows_multi_sequence :
+  forall (row : Type) (parse_md : bytes -> option (list path)) (dec_file : bytes -> list row)
+         (steps : list step_in) refs s old_rows,
+    steps_ok parse_md steps refs -> refs_of parse_md s = Some refs ->
+    read_dataset (list row) parse_md (rows_decode row dec_file) s = Some old_rows ->
+    exists refs' s', run_appends steps refs s = Some (refs', s')
+      /\ read_dataset (list row) parse_md (rows_decode row dec_file) s'
+         = Some (old_rows ++ concat (map dec_file (all_new_contents steps refs)))
+      /\ refs_of parse_md s' = Some refs'
+      /\ (forall q, In q refs -> lookup q s' = lookup q s).
+Proof. exact appends_rows_multi. Qed.
+Print Assumptions C07_rows_multi_sequence.
+
 (* categorical columns (Dataset/CatRead.v: ONE label list for the whole output column, replaced by
    every dictionary page read; codes copied as they are).
    Full statement wanted by the property:  forall init chunks, read_cat init chunks = expected_cat chunks.
